@@ -314,9 +314,18 @@ thread_local! {
 /// Install the process-wide panic hook: panics are recorded per thread (tokio swallows panics
 /// in spawned tasks; on a current-thread runtime they happen on the worker's own thread) and
 /// not printed.
+/// Process-wide panic count (panics on threads that are not a worker's own, e.g. the worker
+/// threads of a Lab-S world runtime).
+pub static PANIC_COUNT: AtomicU64 = AtomicU64::new(0);
+pub static LAST_PANIC: Mutex<String> = Mutex::new(String::new());
+
 pub fn install_panic_hook() {
     std::panic::set_hook(Box::new(|info| {
         let msg = format!("{info}");
+        PANIC_COUNT.fetch_add(1, Ordering::SeqCst);
+        if let Ok(mut l) = LAST_PANIC.lock() {
+            *l = msg.clone();
+        }
         PANIC_MSGS.with(|p| p.borrow_mut().push(msg));
     }));
 }
